@@ -26,11 +26,19 @@ type mconn struct {
 	open      bool
 	accepted  bool
 	keepAlive uint16
-	qos2in    map[uint16]*refcodec.Packet // QoS 2 publishes received, waiting for PUBREL
+	qos2in    map[uint16]*q2ex // QoS 2 exchanges open on this connection
 	qos2order []uint16
 	sess      *msession
 	lastRecv  int64 // virtual time of the last bytes the client sent
 	dialed    int64
+}
+
+// q2ex is an inbound QoS 2 exchange: opened by the first PUBLISH with an id,
+// closed by its PUBREL.
+type q2ex struct {
+	pkt       *refcodec.Packet
+	released  bool // PUBREL processed
+	delivered bool // handed on already (allowed as soon as its own PUBREL is processed)
 }
 
 type mretained struct {
@@ -83,6 +91,9 @@ type Delivery struct {
 	Retain  bool
 	// RetainAny: the retain flag is not demanded (in-process callbacks)
 	RetainAny bool
+	// Got is filled in by Compare: how many copies arrived
+	Got int
+	Tag interface{}
 }
 
 func minb(a, b byte) byte {
@@ -160,7 +171,8 @@ func (m *Model) Key() string {
 		}
 		var q2 []string
 		for _, id := range c.qos2order {
-			q2 = append(q2, fmt.Sprintf("%d:%s", id, c.qos2in[id].Payload))
+			x := c.qos2in[id]
+			q2 = append(q2, fmt.Sprintf("%d:%s:%v:%v", id, short(string(x.pkt.Payload)), x.released, x.delivered))
 		}
 		ks = append(ks, fmt.Sprintf("C:%s=%s,clean=%v,acc=%v,will=%s,q2=%v", n, c.cid, c.clean, c.accepted, w, q2))
 	}
@@ -235,6 +247,7 @@ func CompareC(name string, got []*refcodec.Packet, e *Exp, classify func(p *refc
 			}
 			used[i] = true
 			n++
+			d.Got++
 			if !d.QoS[p.QoS] {
 				mm = append(mm, Mismatch{d.Comp, fmt.Sprintf("%s received %q at QoS %d, allowed %v", name, d.Topic, p.QoS, qosSet(d.QoS))})
 			}
